@@ -120,8 +120,11 @@ def step (cfg : Config) (cache : PageCache) (line : String) : PageCache × Strin
       let cch := match x.cacheCopy with
         | none => "none"
         | some c => if real then "*" else toHex c
+      -- model-internal anomalies (none is expected with the schedules the harness can inject): they show up as a diff
       let note := (if x.resp.wire.violated then "violated" else "") ++
-        (if !x.resp.wire.conn.backlog.isEmpty then "undrained" else "")
+        (if !x.resp.wire.conn.backlog.isEmpty then "undrained" else "") ++
+        (if x.resp.wire.conn.broken then "broken" else "") ++
+        (if x.resp.wire.conn.wire ++ x.resp.wire.conn.backlog != x.resp.wire.conn.handed then "invariant" else "")
       (x.cache, s!"{wire} {cch} {ztrace x.resp} {if note.isEmpty then "-" else note}")
 
 def main (args : List String) : IO Unit := do
